@@ -433,6 +433,14 @@ func AgentInfo(r *rand.Rand, n int) []byte {
 			}
 		}
 		l = max(0, min(l, rest-2, 255))
+		if l >= 1 && rest-2-l >= 4 && r.IntN(5) == 0 { // virtual subnet selection with its empty control sub-option (RFC 6607)
+			v = append(v, 151, byte(l))
+			for i := 0; i < l; i++ {
+				v = append(v, byte('a'+r.UintN(26)))
+			}
+			v = append(v, 152, 0)
+			continue
+		}
 		v = append(v, byte(1+r.UintN(12)), byte(l))
 		for i := 0; i < l; i++ {
 			v = append(v, byte('a'+r.UintN(26)))
